@@ -460,7 +460,7 @@ package raft
 //@ ensures !r.pendingConfigChange && r.leaderTransferTarget == NoNode
 //@ ensures (forall k uint64 :: (k in r.remotes) == old(k in r.remotes) && (k in r.nonVotings) == old(k in r.nonVotings) && (k in r.witnesses) == old(k in r.witnesses))
 //@ ensures len(r.remotes) == old(len(r.remotes)) && len(r.nonVotings) == old(len(r.nonVotings)) && len(r.witnesses) == old(len(r.witnesses))
-//@ ensures len(r.matched) == len(r.remotes) + len(r.witnesses)
+//@ ensures len(r.matched) == len(r.remotes) + len(r.witnesses) && fresh(r.matched)
 //@ ensures r.wf()
 
 // role guards (C18-R2): these return normally only from the permitted source roles
@@ -529,11 +529,57 @@ package raft
 //@ trusted body not verified: scans the uncommitted log suffix for config-change entries
 //@ modifies r.pendingConfigChange
 
-//@ func (r *raft) appendEntries [C03]
-//@ trusted body not verified here (stamps term/index on the entries, appends them, updates own match, may commit on single-node quorum)
-//@ requires r.wf()
-//@ modifies r.log.inmem.markerIndex, r.log.inmem.shrunk, r.log.inmem.entries, r.log.inmem.savedTo, elems(r.log.inmem.entries[len(r.log.inmem.entries):]), r.log.committed, r.matched, allof(remote.match), allof(remote.next)
+// C02-M1 / C18: the leader commits by counting a quorum of match indexes of VOTING members only.
+// sortMatchValues: ascending order, same multiset (explicit for the unrolled three-member case;
+// the sort.Slice branch is the library's contract, assumed)
+//@ extern sort Slice
+//@ modifies elems(asslice(uint64, x))
+//@ func (r *raft) sortMatchValues [C02 C18]
+//@ nobounds
+//@ modifies elems(r.matched)
+//@ ensures len(r.matched) == 3 ==> r.matched[0] <= r.matched[1] && r.matched[1] <= r.matched[2]
+//@ ensures len(r.matched) == 3 ==> (r.matched[0] == old(r.matched[0]) && r.matched[1] == old(r.matched[1]) && r.matched[2] == old(r.matched[2])) || (r.matched[0] == old(r.matched[0]) && r.matched[1] == old(r.matched[2]) && r.matched[2] == old(r.matched[1])) || (r.matched[0] == old(r.matched[1]) && r.matched[1] == old(r.matched[0]) && r.matched[2] == old(r.matched[2])) || (r.matched[0] == old(r.matched[1]) && r.matched[1] == old(r.matched[2]) && r.matched[2] == old(r.matched[0])) || (r.matched[0] == old(r.matched[2]) && r.matched[1] == old(r.matched[0]) && r.matched[2] == old(r.matched[1])) || (r.matched[0] == old(r.matched[2]) && r.matched[1] == old(r.matched[1]) && r.matched[2] == old(r.matched[0]))
+//@ ensures len(r.matched) == 1 ==> r.matched[0] == old(r.matched[0])
+//@ free ensures forall i int, j int :: 0 <= i && i < j && j < len(r.matched) ==> r.matched[i] <= r.matched[j]
+//@ free ensures forall i int :: 0 <= i && i < len(r.matched) ==> (exists j int :: 0 <= j && j < len(r.matched) && r.matched[i] == old(r.matched[j]))
+
+// raft.tryCommit: the candidate commit index is the (n - quorum)-th smallest match value, so the
+// quorum() largest match values are all at or above it; the array holds one slot per voting member
+// (remotes and witnesses, never non-voting members), every slot is filled in this call with the
+// match index of a voting member (loop invariants 1 and 2: one slot per iteration, idx ends at the
+// number of voting members; their composition with the permutation done by the sort is not restated
+// as a postcondition -- the solvers do not chain the two existentials); the commit index moves only
+// to an entry of the current term and never backwards
+//@ func (r *raft) tryCommit [C02 C18]
+//@ nobounds
+//@ requires r.wf() && r.term > 0
+//@ modifies r.matched, elems(r.matched), r.log.committed
 //@ ensures r.wf()
+//@ ensures len(r.matched) == len(r.remotes) + len(r.witnesses)
+//@ ensures result ==> r.log.committed > old(r.log.committed) && r.log.termAt(r.log.committed) == r.term
+//@ ensures !result ==> r.log.committed == old(r.log.committed)
+//@ ensures result ==> (forall i int :: len(r.matched) - ((len(r.remotes) + len(r.witnesses)) / 2 + 1) <= i && i < len(r.matched) && 0 <= i ==> r.matched[i] >= r.log.committed)
+//@ loop 1 modifies elems(r.matched)
+//@ loop 1 invariant r.wf() && idx == itersteps() && len(r.matched) == len(r.remotes) + len(r.witnesses)
+//@ loop 1 invariant forall i int :: 0 <= i && i < idx ==> (exists k uint64 :: k in r.remotes && r.matched[i] == r.remotes[k].match)
+//@ loop 2 modifies elems(r.matched)
+//@ loop 2 invariant r.wf() && idx == len(r.remotes) + itersteps() && len(r.matched) == len(r.remotes) + len(r.witnesses)
+//@ loop 2 invariant forall i int :: 0 <= i && i < idx ==> (exists k uint64 :: (k in r.remotes && r.matched[i] == r.remotes[k].match) || (k in r.witnesses && r.matched[i] == r.witnesses[k].match))
+
+// appendEntries (leader): the new entries are stamped with the leader's term and the indexes right
+// after its last entry and appended -- the leader never rewrites or truncates what it already has
+//@ func (r *raft) appendEntries [C03 C02]
+//@ nobounds
+//@ requires r.wf() && r.term > 0 && r.log.lastIdx() + len(entries) < MaxUint64 - 1 && disjoint(entries, r.log.inmem.entries)
+//@ modifies elems(entries), r.log.inmem.markerIndex, r.log.inmem.shrunk, r.log.inmem.entries, r.log.inmem.savedTo, elems(r.log.inmem.entries[len(r.log.inmem.entries):]), r.log.committed, r.matched, elems(r.matched), allof(remote.match), allof(remote.next), allof(remote.state), allof(remote.snapshotIndex)
+//@ ensures r.wf()
+//@ ensures r.log.lastIdx() == old(r.log.lastIdx()) + len(entries)
+//@ ensures forall i int :: 0 <= i && i < len(entries) ==> entries[i].Term == r.term && entries[i].Index == old(r.log.lastIdx()) + 1 + i
+//@ ensures len(entries) > 0 ==> (forall i int :: 0 <= i && i < len(entries) ==> r.log.termRaw(old(r.log.lastIdx()) + 1 + i) == entries[i].Term)
+//@ ensures len(entries) > 0 ==> (forall j int :: r.log.inmem.markerIndex <= j && j <= old(r.log.lastIdx()) ==> r.log.termRaw(j) == old(r.log.termRaw(j)))
+//@ ensures r.log.committed >= old(r.log.committed)
+//@ loop 1 modifies elems(entries)
+//@ loop 1 invariant r.wf() && lastIndex == r.log.lastIdx() && (forall k int :: 0 <= k && k <= $i ==> entries[k].Term == r.term && entries[k].Index == lastIndex + 1 + k)
 
 //@ func (r *raft) broadcastReplicateMessage [C03]
 //@ trusted body not verified here (builds Replicate messages for every peer)
@@ -543,17 +589,17 @@ package raft
 
 // V3: leadership is assumed only by a candidate holding granted votes from a quorum of distinct voters
 //@ func (r *raft) becomeLeader [C03 C18]
-//@ requires r.wf() && r.rl != nil && r.electionTimeout > 0
+//@ requires r.wf() && r.rl != nil && r.electionTimeout > 0 && r.term > 0 && r.log.lastIdx() < MaxUint64 - 2
 //@ requires r.state == candidate && counttrue(r.votes) == (len(r.remotes) + len(r.witnesses)) / 2 + 1
 //@ modifies r.state, r.term, r.vote, r.electionTick, r.randomizedElectionTimeout, r.votes, r.heartbeatTick, r.readIndex, r.pendingConfigChange, r.leaderTransferTarget, r.matched
 //@ modifies entries(r.remotes), entries(r.nonVotings), entries(r.witnesses), r.leaderID, r.leaderUpdate, r.prevLeader
-//@ modifies r.log.inmem.markerIndex, r.log.inmem.shrunk, r.log.inmem.entries, r.log.inmem.savedTo, elems(r.log.inmem.entries[len(r.log.inmem.entries):]), r.log.committed, allof(remote.match), allof(remote.next)
+//@ modifies r.log.inmem.markerIndex, r.log.inmem.shrunk, r.log.inmem.entries, r.log.inmem.savedTo, elems(r.log.inmem.entries[len(r.log.inmem.entries):]), r.log.committed, allof(remote.match), allof(remote.next), allof(remote.state), allof(remote.snapshotIndex), elems(r.matched)
 //@ ensures r.state == leader && r.term == old(r.term) && r.vote == old(r.vote) && r.leaderID == r.replicaID && r.wf()
 //@ ensures len(r.remotes) == old(len(r.remotes)) && len(r.witnesses) == old(len(r.witnesses)) && len(r.nonVotings) == old(len(r.nonVotings))
 
 //@ func (r *raft) campaign [C03 C18]
 //@ noframe
-//@ requires r.wf() && r.rl != nil && r.electionTimeout > 0 && r.term < MaxUint64
+//@ requires r.wf() && r.rl != nil && r.electionTimeout > 0 && r.term < MaxUint64 && r.log.lastIdx() < MaxUint64 - 2
 //@ modifies r.state, r.term, r.vote, r.electionTick, r.randomizedElectionTimeout, r.votes, r.heartbeatTick, r.readIndex, r.pendingConfigChange, r.leaderTransferTarget, r.matched
 //@ modifies entries(r.remotes), entries(r.nonVotings), entries(r.witnesses), r.leaderID, r.leaderUpdate, r.prevLeader, entries(r.votes), r.isLeaderTransferTarget
 //@ modifies r.log.inmem.markerIndex, r.log.inmem.shrunk, r.log.inmem.entries, r.log.inmem.savedTo, elems(r.log.inmem.entries[len(r.log.inmem.entries):]), r.log.committed, allof(remote.match), allof(remote.next)
@@ -563,11 +609,11 @@ package raft
 //@ ensures r.state == candidate || (r.state == leader && (len(r.remotes) + len(r.witnesses)) / 2 + 1 == 1)
 
 //@ func (r *raft) handleCandidateRequestVoteResp [C03 C18]
-//@ requires r.wf() && r.rl != nil && r.electionTimeout > 0 && r.state == candidate
+//@ requires r.wf() && r.rl != nil && r.electionTimeout > 0 && r.state == candidate && r.term > 0 && r.log.lastIdx() < MaxUint64 - 2
 //@ modifies r.state, r.term, r.vote, r.electionTick, r.randomizedElectionTimeout, r.votes, r.heartbeatTick, r.readIndex, r.pendingConfigChange, r.leaderTransferTarget, r.matched
 //@ modifies entries(r.remotes), entries(r.nonVotings), entries(r.witnesses), r.leaderID, r.leaderUpdate, r.prevLeader, entries(r.votes)
 //@ modifies r.log.inmem.markerIndex, r.log.inmem.shrunk, r.log.inmem.entries, r.log.inmem.savedTo, elems(r.log.inmem.entries[len(r.log.inmem.entries):]), r.log.committed, allof(remote.match), allof(remote.next)
-//@ modifies r.msgs, elems(r.msgs[len(r.msgs):]), allof(remote.state), allof(remote.active), allof(remote.snapshotIndex)
+//@ modifies r.msgs, elems(r.msgs[len(r.msgs):]), allof(remote.state), allof(remote.active), allof(remote.snapshotIndex), elems(r.matched)
 // R7: an answer from a non-voting member changes nothing
 //@ ensures old(m.From in r.nonVotings) ==> r.state == old(r.state) && r.votes == old(r.votes) && (forall k uint64 :: (k in r.votes) == old(k in r.votes))
 //@ ensures r.term == old(r.term) && r.vote == old(r.vote)
@@ -576,7 +622,7 @@ package raft
 // C07 (raft side): no campaign while a committed membership change is not yet applied
 //@ func (r *raft) handleNodeElection [C07 C18 C03]
 //@ noframe
-//@ requires r.wf() && r.rl != nil && r.electionTimeout > 0 && r.term < MaxUint64 && r.hasNotAppliedConfigChange == nil
+//@ requires r.wf() && r.rl != nil && r.electionTimeout > 0 && r.term < MaxUint64 && r.log.lastIdx() < MaxUint64 - 2 && r.hasNotAppliedConfigChange == nil
 //@ modifies r.state, r.term, r.vote, r.electionTick, r.randomizedElectionTimeout, r.votes, r.heartbeatTick, r.readIndex, r.pendingConfigChange, r.leaderTransferTarget, r.matched
 //@ modifies entries(r.remotes), entries(r.nonVotings), entries(r.witnesses), r.leaderID, r.leaderUpdate, r.prevLeader, entries(r.votes), r.isLeaderTransferTarget
 //@ modifies r.log.inmem.markerIndex, r.log.inmem.shrunk, r.log.inmem.entries, r.log.inmem.savedTo, elems(r.log.inmem.entries[len(r.log.inmem.entries):]), r.log.committed, allof(remote.match), allof(remote.next)
